@@ -46,4 +46,9 @@ CHECKS = {
   text='For every accepted step of every generated run the end value is compared with the fine collocation solution started from the step\'s actual start value; the admissible distance is kappa times the defect the level really holds (recomputed from node values), and for full_abs also 10*kappa*restol. '
        'The premise is verified too: a step that stopped by residual must hold a defect <= restol in the configured residual type. Runs that hit maxiter are discarded and counted.',
   note='Linear problems only (as the statement says). Relative residual types are generated with non-zero start values (the library divides by |u0|). Known finding F3 (zero-sweep finish at iteration 0) is matched by the iteration count of the failing step.'),
+ 'C10': dict(
+  technique='property-based testing: generated level hierarchies/transfers/problems driven through the real controller stages; metamorphic fixed-point invariance and the algebraic defect identity recomputed independently',
+  text='On a one-step controller with 2-3 levels the harness (1) iterates the fine level to its collocation solution, runs IT_DOWN/IT_COARSE/IT_UP through controller.pfasst and requires the fine values (and f) to stay put and every coarse level to sit on its own fixed point; '
+       '(2) for arbitrary fine iterates checks right after each restriction that the coarse defect u0+dt*Q*F(U)+tau-U equals the restricted fine defect (incl. inherited tau on three levels). Linear (forced fixtures, heat, advection, FFT advection-diffusion IMEX) and nonlinear (van der Pol, logistic, periodic Allen-Cahn) problems.',
+  note='The restricted defect is formed with the step\'s own transfer operators (their exactness is C11). Tolerance 1e-10*scale + 1e4*measured fine defect. The explicit multigrid-in-time iteration-matrix clause of the statement is not yet built (planned: dense two-level map).'),
 }
